@@ -80,18 +80,53 @@ def leaf_diffs(a, b, out, path=()):
     out.append((path, a, b))
 
 
+def blame(a, b, out):
+    """a == b although canon(a) != canon(b): find the node(s) whose own __eq__ ignores a difference (their differing
+    children are NOT equal, or they have no children)."""
+    ca, cb = genattr.children(a), genattr.children(b)
+    if type(a) is type(b) and ca and len(ca) == len(cb):
+        if isinstance(a, bi.DictionaryAttr):
+            ca, cb = sorted(ca), sorted(cb)
+        if [s for s, _ in ca] == [s for s, _ in cb]:
+            sub = [(x, y) for (_s, x), (_t, y) in zip(ca, cb) if canon(x) != canon(y)]
+            if sub and all(x == y for x, y in sub):
+                for x, y in sub:
+                    blame(x, y, out)
+                return
+    out.append((a, b))
+
+
+def missing_dataclass_fields(x):
+    """IRDL parameters of a ParametrizedAttribute class that are no dataclass fields (so the generated __eq__/__hash__
+    cannot see them)."""
+    import dataclasses
+    if not isinstance(x, ParametrizedAttribute):
+        return set()
+    try:
+        params = [p for p, _ in type(x).get_irdl_definition().parameters]
+    except Exception:  # noqa: BLE001
+        return set()
+    return set(params) - {f.name for f in dataclasses.fields(x)}
+
+
 def classify_eq_but_differs(a, b):
-    """a == b although canon differs -> set of mechanism keys."""
-    diffs = []
-    leaf_diffs(a, b, diffs)
+    """a == b although canon differs -> set of mechanism keys (by the node whose __eq__ ignores the difference)."""
+    blamed = []
+    blame(a, b, blamed)
     keys = set()
-    for _path, x, y in diffs:
+    for x, y in blamed:
         if isinstance(x, bi.FloatData) and isinstance(y, bi.FloatData):
             if x.data == 0 and y.data == 0:
                 keys.add(K_ZERO)
                 continue
             if math.isnan(x.data) and math.isnan(y.data):
                 keys.add(K_NAN)
+                continue
+        if type(x) is type(y) and missing_dataclass_fields(x) and type(x).__eq__ is not object.__eq__:
+            differing = {s for (s, u), (_t, v) in zip(genattr.children(x), genattr.children(y)) if canon(u) != canon(v)}
+            names = [p for p, _ in type(x).get_irdl_definition().parameters]
+            if differing and all(names[i] in missing_dataclass_fields(x) for i in differing):
+                keys.add(f"eq-ignores-parameters-missing-from-dataclass-fields:{x.name}")
                 continue
         keys.add(f"eq-but-value-differs:{type(x).__name__}")
     return keys or {f"eq-but-value-differs:{type(a).__name__}"}
